@@ -78,6 +78,8 @@ class Check(FormulaCheck):
             self.slices(rnd, s)
             self.casefuncs(rnd, s)
             self.subst(rnd)
+            if rnd.random() < 0.1:
+                self.code_lookalikes(rnd)
             self.joins(rnd)
             rec.sample({'string': s})
 
@@ -149,6 +151,25 @@ class Check(FormulaCheck):
                 removed_ok = sub and all(unicodedata.category(c) == 'Cc' for c in set(s) if s.count(c) != o.count(c))
                 self.expect('C15/CLEAN-changes-more-than-controls', removed_ok, s=s, got=o)
                 self.expect('C15/CLEAN-leaves-control-characters', not any(ord(c) < 32 for c in o), s=s, got=o)
+
+    def code_lookalikes(self, rnd):
+        """a text function whose RESULT is, character for character, an error code: it is that text, not the error"""
+        rec = self.rec
+        code = rnd.choice(['#N/A', '#DIV/0!', '#VALUE!', '#REF!', '#NAME?', '#NUM!', '#NULL!', '#ERROR!', '#GETTING_DATA'])
+        tail = rs(rnd, rnd.randint(1, 5)) or 'x'
+        k = len(code)
+        cut = rnd.randint(1, k - 1)
+        for f, args in (('LEFT(v_s,v_n)', dict(v_s=code + tail, v_n=k)), ('RIGHT(v_s,v_n)', dict(v_s=tail + code, v_n=k)), ('MID(v_s,v_a,v_n)', dict(v_s=tail + code + tail, v_a=len(tail) + 1, v_n=k)),
+                        ('UPPER(v_s)', dict(v_s=code.lower())), ('TRIM(v_s)', dict(v_s='  ' + code + ' ')), ('CLEAN(v_s)', dict(v_s=code[:cut] + '\x01' + code[cut:])),
+                        ('CONCATENATE(v_a,v_b)', dict(v_a=code[:cut], v_b=code[cut:])), ('SUBSTITUTE(v_s,"~","")', dict(v_s=code[:cut] + '~' + code[cut:])),
+                        ('TEXTJOIN("",TRUE,v_a,v_b)', dict(v_a=code[:cut], v_b=code[cut:])), ('v_a&v_b', dict(v_a=code[:cut], v_b=code[cut:])), ('LEFT(v_s,v_n)&""', dict(v_s=code + tail, v_n=k))):
+            if f.startswith('UPPER') and code.lower().upper() != code:
+                continue
+            r = self.raw(f, **args)
+            self.expect('C15/result-that-spells-an-error-code-is-not-that-text', r == {'result': code, 'error': None}, formula=f, arguments=args, record=r, expected=code)
+            rec.nt(('lookalike', f, code))
+        g = self.ev('LEN(LEFT(v_s,v_n))', v_s=code + tail, v_n=k)
+        self.expect('C15/result-that-spells-an-error-code-is-not-that-text', g == k, formula='LEN(LEFT(v_s,v_n))', s=code + tail, got=g, expected=k)
 
     def subst(self, rnd):
         rec = self.rec
